@@ -212,7 +212,8 @@ func verifHarness_C05_history() {
 	var mstart int64
 	next := int64(1) // next proxy id the allocator would hand out
 	for step := 0; step < nops; step++ {
-		switch verifChoose("op", 3) {
+		// ackonly=1: appends and acknowledgements only (what recvAck does), no free-standing Discard
+		switch verifChoose("op", 3-verifParam("ackonly", 0)) {
 		case 0:
 			verifAction("append")
 			gap := 0
